@@ -17,6 +17,26 @@ CHECKS = {
    text="The grouping primitives are row-wise/run-wise: every branch (bit packing vs void fallback, wrap cases of blocks, require_count slicing) is selected by small discrete features that all occur among arrays of <=3 rows x <=3 columns over 3 symbols, sequences of length <=6, and values one below / at / above each packing limit. Every such input is run through every primitive with every option combination and compared with element-by-element grouping on Python tuples.",
    note="Trusts Python dict/set semantics. Larger arrays and other dtypes (strings, uint64) are outside the enumerated scope.",
    design="3.C06"),
+ "C01": dict(level="model_checking", engine="E1",
+   technique="explicit-state BFS over read/mutator histories of real Trimesh objects, states merged on data + cache contents, every reader compared with a freshly built mesh after every mutator; differential oracle (same mutators without reads)",
+   text="Cache staleness is an ordering defect: read X, mutate by Y, read Z. The search enumerates every history of <=r single reads (or read-everything) before each of <=d mutators from a 45-mutator alphabet (all transform classes, inversion, masks, merging, repair, in-place edits, edits through a held view, reassignment, overrides, the four copy routes) on six start meshes, merges states on (array digests, cache keys and value digests, overrides) and after every mutator compares all 62 readers (incl. ray, nearest, contains, hull, OBB) with Trimesh(vertices.copy(), faces.copy(), process=False) carrying the same overrides; additionally the arrays produced must not depend on which values were read before.",
+   note="Bounded by d mutators / r reads per segment as reported; float comparison rtol 1e-9 (looser for ill-conditioned readers); near-identity matrices left to C04; known findings (process / merge_vertices keyed on cached normals) listed in known_findings.json.",
+   design="3.C01"),
+ "C03": dict(level="exploration", engine="E2",
+   technique="exhaustive lattice enumeration (all pillows and all ordered tetrahedra on a 4-value grid = unisolvent for the degree-3 polynomial identities) against exact Fraction integrals; finite API product",
+   text="mass_properties is additive over triangles and polynomial (degree<=3 per coordinate, re-checked at run time), so exactness on all closed surfaces reduces to two polynomial identities decided by complete enumeration of a 4-valued grid (thorough; quick enumerates the 3-valued grid and all 4^9 pillows). The API layer (volume, mass, centre, inertia, area, moment_inertia_frame) is enumerated over meshes x merged x density x override x 24 rotations x 5 translations with exact rational expectations.",
+   note="Assumption A1 (polynomial degree) is re-checked numerically; quick tier is complete for its lattice but not unisolvent (stated in evidence). With an overridden centre only honouring + the parallel-axis law from reported values are demanded.",
+   design="3.C03"),
+ "C05": dict(level="exploration", engine="E2",
+   technique="bounded-exhaustive enumeration of all small face arrays (sequences and sets, degenerate and non-manifold included) against direct counting on Python sets; both graph engines",
+   text="Every topological query is face-local / edge-local counting, so every branch (edge shared by 1,2,3 faces, repeated index, repeated face, unreferenced vertex, isolated face) already occurs among meshes with <=3 faces on <=5 vertices and k-subsets of the 24 oriented faces on 4 vertices; all of them are enumerated and every reader compared with an oracle that counts on tuples.",
+   note="Documented conventions are taken from docstrings (adjacency = exactly-two edges; body_count counts vertex groups). Larger meshes are outside the scope.",
+   design="3.C05"),
+ "C19": dict(level="exploration", engine="E2",
+   technique="complete grid enumeration (24 Euler conventions x angle grid^3 incl. every singular angle and both sides of it, all small integer quaternions, lattice axes, compose/decompose product) against definition-level oracles, compared at the matrix level",
+   text="Conversion defects live in discrete branches (largest-diagonal branch, gimbal branch, axis-dominance branch, convention parity tables); the grids hit every branch of every convention, and each conversion is compared with elementary-rotation products / Rodrigues / quaternion sandwich at the matrix level so angle non-uniqueness cannot cause false alarms.",
+   note="Tolerance 1e-9 (5e-6 within 1e-9 of a singular angle where the inverse trigonometric step is ill-conditioned by 1/cos).",
+   design="3.C19"),
 }
 
 NA = {}
